@@ -712,9 +712,64 @@ class Gen(object):
             out.append(inner)
         return out
 
+    def select_patterns(self):
+        """selections whose where clause is decided by a later candidate: one A with three or four Bs holding distinct N;
+        select any / many related by ... where from the instance, from a set and over two steps, and from instances of ...
+        where, for a value held by the first, a middle, the last or no candidate; every result is folded into a number"""
+        r = self.rnd
+        a = self.fresh('inst:A', 'a')
+        self.ok[-1].add(a)
+        out = [{'t': 'create', 'v': a, 'k': 'A'}, Assign(Field(V(a), 'N'), I(r.randint(0, 5)))]
+        vals = r.sample(range(1, 9), r.randint(3, 4))
+        for v in vals:
+            b = self.fresh('inst:B', 'b')
+            self.ok[-1].add(b)
+            x, y = (a, b) if r.random() < 0.5 else (b, a)
+            out += [{'t': 'create', 'v': b, 'k': 'B'}, Assign(Field(V(b), 'N'), I(v)),
+                    {'t': 'relate', 'a': x, 'b': y, 'rel': 'R1', 'ph': '', 'using': ''}]
+        t = self.fresh('int', 't')
+        out.append(Assign(V(t), I(0)))
+        sel = Field({'t': 'selected'}, 'N')
+
+        def cond():
+            k = r.choice(vals + vals[1:] + [0])
+            return r.choice([Bin('==', sel, I(k)), Bin('>', sel, I(k)), Bin('!=', sel, I(vals[0])),
+                             Bin('>=', sel, Bin('+', I(k), I(1))), Bin('and', Bin('!=', sel, I(vals[0])), Bin('<=', sel, I(k)))])
+
+        def fold_inst(v):
+            return If(Un('not_empty', V(v)), [Assign(V(t), Bin('+', Bin('*', V(t), I(10)), Field(V(v), 'N')))],
+                      [], [Assign(V(t), Bin('*', V(t), I(10)))])
+        sa = None
+        for _ in range(r.randint(2, 4)):
+            form = r.choice(['rel_any', 'rel_any', 'rel_many', 'from_any', 'set_any', 'two_step'])
+            if form in ('rel_any', 'rel_many'):
+                card = 'any' if form == 'rel_any' else 'many'
+                v = self.fresh('inst:B' if card == 'any' else 'set:B', 'v')
+                out.append({'t': 'select_related', 'card': card, 'v': v, 'h': V(a), 'chain': [{'k': 'B', 'rel': 'R1', 'ph': ''}],
+                            'haswhere': True, 'w': cond()})
+                out.append(fold_inst(v) if card == 'any' else Assign(V(t), Bin('+', Bin('*', V(t), I(10)), Un('cardinality', V(v)))))
+            elif form == 'from_any':
+                v = self.fresh('inst:B', 'v')
+                out.append({'t': 'select_from', 'card': 'any', 'v': v, 'k': 'B', 'haswhere': True, 'w': cond()})
+                out.append(fold_inst(v))
+            else:
+                if sa is None:
+                    sa = self.fresh('set:A', 's')
+                    out.append({'t': 'select_from', 'card': 'many', 'v': sa, 'k': 'A', 'haswhere': False, 'w': B(True)})
+                v = self.fresh('inst:B', 'v')
+                chain = [{'k': 'B', 'rel': 'R1', 'ph': ''}]
+                if form == 'two_step':
+                    chain += [{'k': 'A', 'rel': 'R1', 'ph': ''}, {'k': 'B', 'rel': 'R1', 'ph': ''}]
+                out.append({'t': 'select_related', 'card': 'any', 'v': v, 'h': V(sa), 'chain': chain, 'haswhere': True, 'w': cond()})
+                out.append(fold_inst(v))
+        out.append(Assign(Field(V(a), 'N'), V(t)))
+        return out
+
     def program(self, nstmts=None, final_return=True, setup=False, patterns=False):
         body = self.setup() if setup else []
-        if patterns:
+        if patterns == 'select':
+            body += self.select_patterns()
+        elif patterns:
             body += self.loop_patterns()
         for _ in range(nstmts or self.rnd.randint(2, 6)):
             s = self.stmt(0)
